@@ -324,10 +324,14 @@ def judge_data(text, info, rec, after, style, units, fname=None):
         fails += judge_columns(d['velocities'], vrow, rec, units, 'data-vel', COLPROP, skip=('id',))
     # the command snippet
     fails += judge_info(info, rec, style, units, fname)
-    if np.any(flags != 0):
+    hasflags = bool(np.any(flags != 0))
+    extended = bool(len(exact) < 3 and (np.abs(np.diag(fv @ np.linalg.inv(rec['vects'] * fl)) - 1).max() > 1e-6))
+    if hasflags:
         chk.note('data-files-with-image-flags')
-    if len(exact) < 3 and (np.abs(np.diag(fv @ np.linalg.inv(rec['vects'] * fl)) - 1).max() > 1e-6):
+    if extended:
         chk.note('data-files-with-extended-box')
+    if hasflags or extended:
+        chk.note('data-files-nontrivial')
     chk.note('data-files')
     return fails
 
@@ -762,7 +766,7 @@ def gen():
 
 if __name__ == '__main__':
     chk.run_cases(gen(), batch=32)
-    nt = sum(chk.notes.get(k, 0) for k in ('data-files-with-image-flags', 'data-files-with-extended-box',
+    nt = sum(chk.notes.get(k, 0) for k in ('data-files-nontrivial',
                                            'dump-files-with-scaled-columns', 'table-files-with-scaled-columns',
                                            'poscar-files-with-scale'))
     cov = {'evaluations': sum(chk.notes.get(k, 0) for k in ('data-files', 'dump-files', 'table-files', 'poscar-files')),
